@@ -32,7 +32,7 @@ func init() {
 	})
 	register("C11", &propDef{
 		Title: "Relative resolution stays inside the package and follows path algebra",
-		Rules: []func(*Checker){ruleC11Escape, ruleC11Same, ruleC11JoinOrder, ruleC06SubpathOnly("C11.local"), ruleC11LocalForm, ruleLiteralAgreement("C11.fields", "sourceaddrs", nil), ruleJoinOperandsAsGiven("C11.joinraw"), ruleC11Absolute, aliasRule(ruleSanitisersAgree("C06.sanagree"), "C06.sanagree", "C11.sanagree", 1)},
+		Rules: []func(*Checker){ruleC11Escape, ruleC11Same, ruleC11JoinOrder, ruleC06SubpathOnly("C11.local"), ruleC11LocalForm, ruleLiteralAgreement("C11.fields", "sourceaddrs", nil), ruleJoinOperandsAsGiven("C11.joinraw"), ruleC11Absolute, aliasRule(ruleSanitisersAgree("C06.sanagree"), "C06.sanagree", "C11.sanagree", 1), ruleC11Rebuilt},
 		NotDecided: []string{
 			"the path algebra itself (segment counting, composition of successive resolutions): path.Join / path.Clean are trusted library semantics",
 		},
@@ -2260,5 +2260,156 @@ func ruleShorthandGetsWhole(id string) func(*Checker) {
 		if n == 0 {
 			c.anchorMissing(id, "calls of shorthand expanders")
 		}
+	}
+}
+
+// ruleC11Rebuilt — what a resolve function returns for a remote or registry
+// base is built anew around the joined sub-path.
+func ruleC11Rebuilt(c *Checker) {
+	const R = "C11.rebuilt"
+	c.rule(R, "In the resolve functions no success return hands back the first argument, or the address inside it, as (part of) the result: for a remote or registry base the result is a new value built around what the join returned. A helper that returns its receiver unchanged `when there is nothing to add` gives back the base with its old sub-path exactly when the relative address climbs to the package root, where the join returns the empty string.", 2)
+	p := c.P
+	carries := map[types.Type]bool{}
+	var carriesSubPath func(t types.Type, depth int) bool
+	carriesSubPath = func(t types.Type, depth int) bool {
+		if v, ok := carries[t]; ok {
+			return v
+		}
+		nt, ok := types.Unalias(t).(*types.Named)
+		if !ok || nt.Obj().Pkg() == nil || !strings.HasSuffix(nt.Obj().Pkg().Path(), addrPkg) || depth > 3 {
+			return false
+		}
+		st, ok := nt.Underlying().(*types.Struct)
+		if !ok {
+			return false
+		}
+		r := false
+		for i := 0; i < st.NumFields(); i++ {
+			if st.Field(i).Name() == "subPath" || carriesSubPath(st.Field(i).Type(), depth+1) {
+				r = true
+			}
+		}
+		carries[t] = r
+		return r
+	}
+	type envT map[*ssa.Parameter]ssa.Value
+	var sources func(v ssa.Value, env envT, depth int, seen map[ssa.Value]bool) []ssa.Value
+	sources = func(v ssa.Value, env envT, depth int, seen map[ssa.Value]bool) []ssa.Value {
+		v = canon(v)
+		if seen[v] || depth > 4 {
+			return nil
+		}
+		seen[v] = true
+		viaCall := func(cl *ssa.Call, idx int) []ssa.Value {
+			g := cl.Common().StaticCallee()
+			if g == nil || !p.InModule(g) || g.Blocks == nil {
+				return []ssa.Value{cl}
+			}
+			env2 := envT{}
+			for i, prm := range g.Params {
+				if i < len(cl.Call.Args) {
+					env2[prm] = cl.Call.Args[i]
+				}
+			}
+			var out []ssa.Value
+			for _, r := range returnsOf(g) {
+				if idx >= len(r.Results) {
+					continue
+				}
+				for _, s := range sources(r.Results[idx], env2, depth+1, map[ssa.Value]bool{}) {
+					// a source that is a parameter of g stands for the argument
+					if prm, ok := s.(*ssa.Parameter); ok {
+						if a, ok := env2[prm]; ok {
+							out = append(out, sources(a, env, depth+1, seen)...)
+							continue
+						}
+					}
+					out = append(out, s)
+				}
+			}
+			return out
+		}
+		switch x := v.(type) {
+		case *ssa.Const:
+			return nil
+		case *ssa.MakeInterface:
+			return sources(x.X, env, depth, seen)
+		case *ssa.TypeAssert:
+			return sources(x.X, env, depth, seen)
+		case *ssa.Phi:
+			var out []ssa.Value
+			for _, e := range x.Edges {
+				out = append(out, sources(e, env, depth, seen)...)
+			}
+			return out
+		case *ssa.Extract:
+			if cl, ok := x.Tuple.(*ssa.Call); ok {
+				return viaCall(cl, x.Index)
+			}
+			if ta, ok := x.Tuple.(*ssa.TypeAssert); ok && x.Index == 0 {
+				return sources(ta.X, env, depth, seen)
+			}
+		case *ssa.Call:
+			return viaCall(x, 0)
+		case *ssa.Parameter:
+			return []ssa.Value{x}
+		case *ssa.Field:
+			if carriesSubPath(x.Type(), 0) {
+				return sources(x.X, env, depth, seen)
+			}
+			return nil
+		case *ssa.UnOp:
+			if x.Op == token.MUL {
+				switch y := x.X.(type) {
+				case *ssa.Alloc:
+					// a composite literal (or a spilled copy): what its struct-valued fields were given, or the whole value stored
+					var out []ssa.Value
+					for _, st := range cellWrites(y) {
+						out = append(out, sources(st.Val, env, depth, seen)...)
+					}
+					eachAllocFieldStore(y, func(st *ssa.Store) {
+						if carriesSubPath(st.Val.Type(), 0) {
+							out = append(out, sources(st.Val, env, depth, seen)...)
+						}
+					})
+					return out
+				case *ssa.FieldAddr:
+					if carriesSubPath(x.Type(), 0) {
+						return sources(y.X, env, depth, seen)
+					}
+					return nil
+				}
+			}
+		}
+		if carriesSubPath(v.Type(), 0) {
+			return []ssa.Value{v}
+		}
+		return nil
+	}
+	n := 0
+	for _, fn := range p.Funcs {
+		if !p.InModule(fn) || !strings.HasSuffix(pkgPathOf(p, fn), addrPkg) || len(fn.Params) != 2 || fn.Blocks == nil || fn.Object() == nil || !fn.Object().Exported() {
+			continue
+		}
+		if !types.Identical(fn.Params[0].Type(), fn.Params[1].Type()) || !types.IsInterface(fn.Params[1].Type()) || fn.Signature.Results().Len() != 2 {
+			continue
+		}
+		base := fn.Params[0]
+		n++
+		bad := token.NoPos
+		for _, r := range returnsOf(fn) {
+			if len(r.Results) != 2 || !mayReturnNilErr(r) {
+				continue
+			}
+			for _, s := range sources(r.Results[0], envT{}, 0, map[ssa.Value]bool{}) {
+				if s == ssa.Value(base) {
+					bad = r.Pos()
+				}
+			}
+		}
+		c.check(bad == token.NoPos, R, p.FuncName(fn), "the base is not handed back", p.Pos(fn.Pos()), "no success return contains the first argument or the address inside it", "the success return at "+p.Pos(bad)+" can hand back the first argument (or the address inside it) with the sub-path it came with, instead of a value built around the joined sub-path")
+	}
+	if n == 0 {
+		c.anchorMissing(R, "the resolve functions")
 	}
 }
